@@ -432,6 +432,9 @@ def shell_catalog():
         "n_fmt": (lambda: A(type=int | None, default=None, formatter=_fmt_n), [None, 5]),
         "o_float": (lambda: A(type=float, argstr="--o", default=1.5, position=-1), [1.5, 2.25]),
         "p_last": (lambda: A(type=str, argstr="", default="tail"), ["tail", "end"]),
+        # tuple-valued defaults whose element order matters (not ascending)
+        "q_size": (lambda: A(type=tuple[int, int], argstr="--size", sep="x", default=(640, 480)), [(640, 480), (3, 1)]),
+        "r_axes": (lambda: A(type=tuple[str, str, str], argstr="--axes", sep=",", default=("z", "y", "x")), [("z", "y", "x"), ("a", "c", "b")]),
     }
     O = shell.outarg
     outputs = {
@@ -496,6 +499,14 @@ def shell_input_sets(key, file_path: str):
         if xor and None not in xor and kw.get("f_opt") is None and kw.get("g_allowed") is None:
             kw["f_opt"] = 3
         sets.append(kw)
+    # only what has no default: every other field takes its declared default
+    kw = dict(base)
+    for n in extra:
+        if inputs[n][1][0] == "<FILE>":
+            kw[n] = file_path
+    if xor and None not in xor:
+        kw["f_opt"] = 3
+    sets.append(kw)
     return sets
 
 
@@ -518,6 +529,8 @@ def python_catalog():
         "k": (lambda: A(type=File, copy_mode=File.CopyMode.copy, help="a file"), ["<FILE>"], "len(str(k.fspath.name))"),
         "l": (lambda: A(type=int, default=0, converter=_to_int), [0, 8], "l"),
         "m": (lambda: A(type=ty.Any, default=None), [None, 6], "(m or 0)"),
+        # tuple-valued default whose element order matters (not ascending)
+        "n": (lambda: A(type=tuple[int, int], default=(3, 1)), [(3, 1), (2, 5)], "(n[0] * 10 + n[1])"),
     }
 
 
@@ -573,6 +586,8 @@ def python_input_sets(key, file_path: str):
         if xor and kw.get("g") is not None and kw.get("h") is not None:
             kw["h"] = None
         sets.append(kw)
+    # only what has no default: every other field takes its declared default
+    sets.insert(1, {"a": 5, **{n: file_path for n in extra if cat[n][1][0] == "<FILE>"}})
     return sets
 
 
